@@ -426,3 +426,17 @@ _add('C13', 'CLOSED WORLD, own file (Props/C13W.lean; from the timer invariant C
      'equal the summed operational / busy time). Two sketched claims are shown FALSE in the class by decide '
      '(down_pending_false: stray release events of the initial queue; work_order_downtime_ge_false: a script restoring the '
      'machine mid-order).')
+
+_add('C09', 'CLOSED WORLD WITH OPERATIONS FROM OUTSIDE (Props/C09W.lean): rmInv_reachable -- C09.Inv w.rm (usage = sum of the outstanding '
+     'holdings, ids, positivity, capacities >= 0) in every world reachable by initialisation, events, runs and ANY well-formed operation '
+     'issued from outside or from scripts and callbacks (register / reserve / release / merge / addres with zero, negative and unknown '
+     'entries, rewiring, creation), also for operations issued BEFORE the first simulate (before_init, before_init_silent: finding F9); '
+     'hypotheses: requests of reserve / partial release / declared requirements have distinct keys (ReqWF, opWF: necessary, nodup_needed '
+     'by three checked counterexamples) and the initial pools satisfy the invariant (fresh_not_enough). World-level corollaries: '
+     'usage_eq_sum, usage_nonneg, cap_nonneg, ext_error_changes_nothing (an operation answering with an error leaves the WHOLE world '
+     'unchanged), ext_reserve_atomic, ext_reserve_iff, ext_release_exact, ext_release_unknown, ext_merge_usage_unchanged, '
+     'ext_merge_holdings, ext_self_merge_noop, ext_add_spec. Every scenario of the correspondence family rm is inside this class.')
+CLAIMED['C15']['text'] += (' The event-trace clause is checked on the real code (harness/c15.py): traced and untraced runs of models WITH '
+     'maintenance and failures (events whose action is a functools.partial), trace and exported file compared with the events '
+     'observed by wrapping Environment.step; finding F15 (simulate(trace=True) raised AttributeError on a model with a work order) '
+     'was found this way and repaired (435c9e8).')
